@@ -1,5 +1,5 @@
 import MaltModel.Rt.Errors
-import MaltModel.Props.C12
+import MaltModel.Proofs.C12Check
 /- Driver handlers for the C12 correspondence (glue only; no theorem depends on this file). -/
 namespace Malt.Drv.C12
 open Malt Malt.Errors
